@@ -1,6 +1,6 @@
 //! BLTE chunk data structures and compression modes
 
-use binrw::io::{Read, Seek, Write};
+use binrw::io::{Read, Seek, SeekFrom, Write};
 use binrw::{BinRead, BinResult, BinWrite};
 
 use super::error::{BlteError, BlteResult};
@@ -78,8 +78,21 @@ impl BinRead for ChunkData {
             err: Box::new(BlteError::UnknownCompressionMode(mode_byte)),
         })?;
 
-        // Read remaining data
+        // Read remaining data. The size comes from the chunk table: make sure the stream
+        // really holds that many bytes before reserving a buffer for them.
         let data_size = compressed_size - 1;
+        let data_start = reader.stream_position()?;
+        let stream_end = reader.seek(SeekFrom::End(0))?;
+        reader.seek(SeekFrom::Start(data_start))?;
+        if data_size as u64 > stream_end.saturating_sub(data_start) {
+            return Err(binrw::Error::Io(std::io::Error::new(
+                std::io::ErrorKind::UnexpectedEof,
+                format!(
+                    "chunk claims {data_size} bytes, only {} left",
+                    stream_end.saturating_sub(data_start)
+                ),
+            )));
+        }
         let mut data = vec![0u8; data_size];
         reader.read_exact(&mut data)?;
 
